@@ -656,12 +656,21 @@ def bounded(rep, tier):
                 db = first if first in dbs else pl.default_namespace
                 if pl.get_predictor(t) is None and db is not None:
                     want.add(db)
-            got = {s.integration for s in plan.steps if isinstance(s, FetchDataframeStep)}
+            def all_fetches(steps):
+                # fetch steps of the plan, including those nested in MultipleSteps / map-reduce containers
+                for s_ in steps:
+                    if isinstance(s_, FetchDataframeStep):
+                        yield s_
+                    sub = getattr(s_, 'steps', None) if type(s_).__name__ == 'MultipleSteps' else (getattr(s_, 'step', None) if type(s_).__name__ == 'MapReduceStep' else None)
+                    if sub is not None:
+                        yield from all_fetches(sub if isinstance(sub, list) else [sub])
+            fetch_steps = list(all_fetches(plan.steps))
+            got = {s.integration for s in fetch_steps}
             if got != want:
                 fails.setdefault(f'C10.bounded.integrations.{qname.split(":")[0]}', (sql, f'[{cname}] fetches from {sorted(map(str, got))}, tables resolve to {sorted(map(str, want))}'))
             # (a') no fetch query mentions a table that belongs to another integration
-            for st_ in plan.steps:
-                if isinstance(st_, FetchDataframeStep) and st_.query is not None:
+            for st_ in fetch_steps:
+                if st_.query is not None:
                     for t in tables_of(st_.query):
                         first = t.parts[0].lower() if len(t.parts) > 1 else None
                         if first in dbs and first != str(st_.integration).lower():
